@@ -33,7 +33,7 @@ func classify(v *report.Violation) {
 	// termination path looks at it: only a LEASE is ever released. Matches only when
 	// the victim never had a lease (establishment prefix "D") and the complaint is
 	// exactly that the pool still reserves the offered address for it.
-	case strings.HasPrefix(v.Part, "matrix:dhcp4-") && v.Kind == "address-not-released" && traceHas(v, "prefix=D") &&
+	case strings.HasPrefix(v.Part, "matrix:dhcp4-") && v.Kind == "address-not-released" && (traceHas(v, "prefix=D") || traceHas(v, "prefix=DD")) &&
 		strings.HasPrefix(v.Detail, "the pool still reserves "):
 		v.Class = "C16-K1-dhcp-offer-reservation-never-released"
 	// C16-K2: pppoe.Server.Stop only closes the socket; the sessions (and their addresses)
